@@ -466,6 +466,12 @@ class SpecGen:
         n_sheets = rnd.randint(*k['n_sheets'])
         names = list(SHEET_NAMES)
         main = rnd.choice(('S', 'S', 'Sh2', 'My Sheet', 'Calc 2', 'Copy (2)'))
+        if k.get('computed_refs'):
+            # pycel emits broken code for a reference argument on a sheet whose name holds
+            # parentheses (offset(_REF_("Copy (2)!B4")!B4"), ...): translation, not claimed
+            names.remove('Copy (2)')
+            if main == 'Copy (2)':
+                main = 'S'
         names.remove(main)
         sheets = [main]
         self.data_sheet = None
